@@ -155,7 +155,10 @@ class DataStream(object):
         v_std : float
             Noise standard deviation
         """
-        noise_func = lambda ts: v_mean + v_std * self.rng.standard_normal(size=len(ts))
+        # Own generator per noise source (seeded from the stream's), so that several sources
+        # do not interleave their draws differently depending on how requests are chunked
+        rng = xp.random.default_rng(int(self.rng.integers(2**31)))
+        noise_func = lambda ts: v_mean + v_std * rng.standard_normal(size=len(ts))
         
         # Variances add, not standard deviations
         self.noise_std = xp.sqrt(self.noise_std**2 + v_std**2)
